@@ -198,15 +198,11 @@ func (sc *StateCache) Get(key, blockHash string) (Value, bool) {
 
 		// // save into current block cache when it's 20 rounds behind
 		// if count >= 20 {
-		bvsi, err := lru.New(200)
-		if err != nil {
-			panic(err)
-		}
-
-		bvsi.Add(oldBlockHash, v)
-
+		// memoise into the key's existing version map: replacing the map would drop the versions
+		// committed by all other blocks, and lookups at those blocks would then walk past their own
+		// writes to an older ancestor's value
 		verifYield("get.memo")
-		sc.cache.Add(key, bvsi)
+		bvs.Add(oldBlockHash, v)
 		// logging.Logger.Debug("state cache - migrate from previous block",
 		// 	zap.String("key", key),
 		// 	zap.Int("depth", count))
